@@ -2156,6 +2156,19 @@ mod l2 {
 }
 
 /// The authenticity verdicts of the node-level group reception scenario (`sim/grouprx.rs`).
+/// What a node sends to a group is what a member of that group decodes (real
+/// `Exchange::initiate_group`, several groups sharing key sets and multicast addresses).
+fn check_node_group_tx(case: &vh::sim::grouptx::GtxCase) -> Case {
+    let v = vh::sim::grouptx::run(case);
+    if let Some(e) = v.inconclusive {
+        return Case::inconclusive(e);
+    }
+    if let Some((sig, detail)) = v.fail {
+        return Case::fail(sig, detail);
+    }
+    Case::pass(v.shared_session_shape).label(if v.shared_session_shape { "consecutive-groups-share-key-set-and-address" } else { "no-shared-session-shape" })
+}
+
 fn check_node_group_rx(case: &vh::sim::grouprx::GrxCase) -> Case {
     use vh::sim::grouprx::{run, Class};
     let out = run(case);
@@ -2210,6 +2223,8 @@ fn main() {
     run.assume("node-group-rx: a sender does not reuse a 32-bit counter value (control vs data counter space, or a data counter 2^32 messages later) while the device still handles the earlier message carrying it; whether a refused (duplicate) authenticated message refreshes the least-recently-used order of the 16 tracked senders is left open (three-valued eviction model)");
     let n = run.cases(40_000, 2_000_000);
     run.prop("node-group-rx", n, vh::sim::grouprx::grx_case, check_node_group_rx);
+    let n = run.cases(4_000, 200_000);
+    run.prop("node-group-tx", n, vh::sim::grouptx::gtx_case, check_node_group_tx);
 
     run.finish();
 }
